@@ -601,6 +601,97 @@ def self_disconnect(ctx, k):
         d.close()
 
 
+def last_event_then_leave(ctx, k):
+    """async_handlers on (the default): a client sends an event and leaves
+    at once - its DISCONNECT (or the end of its transport) is processed before
+    the task / thread that runs the event's handler gets its first turn.
+    The event was sent on a connected namespace: its handler still runs,
+    exactly once."""
+    import asyncio
+    from engineio import packet as eio_packet
+    from vlib import drive as D
+    rng = ctx.case_rng(12 * 10 ** 7 + k)
+    kind = 'sync' if k % 2 == 0 else 'async'
+    ns = rng.choice(['/', '/a'])
+    pid = rng.choice([None, 4])
+    how = rng.choice(['client_disconnect', 'transport_end'])
+    d = D.make_drive(kind, async_handlers=True)
+    log = []
+    if kind == 'async':
+        async def ev(sid, tok):
+            log.append(('event', sid, tok))
+            return 'r'
+    else:
+        def ev(sid, tok):
+            log.append(('event', sid, tok))
+            return 'r'
+    d.sio.on('ev', ev, namespace=ns)
+    d.sio.on('disconnect', lambda sid, reason: log.append(
+        ('disconnect', sid, reason)), namespace=ns)
+    try:
+        t = d.open()
+        t.connect(ns)
+        sid = t.sids[ns]
+        if d.serializer == 'msgpack':
+            f_ev = R.msgpack_encode(R.EVENT, ns, pid, ['ev', 1])
+            f_dc = R.msgpack_encode(R.DISCONNECT, ns, None, None)
+        else:
+            f_ev = R.encode(R.EVENT, ns, pid, ['ev', 1])[0]
+            f_dc = R.encode(R.DISCONNECT, ns, None, None)[0]
+        if kind == 'async':
+            async def go():
+                await t.socket.receive(eio_packet.Packet(
+                    eio_packet.MESSAGE, f_ev))
+                if how == 'client_disconnect':
+                    await t.socket.receive(eio_packet.Packet(
+                        eio_packet.MESSAGE, f_dc))
+                else:
+                    await t.socket.close(
+                        wait=False, abort=True,
+                        reason=d.eio.reason.TRANSPORT_CLOSE)
+            d.run(go())
+            d._reap(t)
+        else:
+            old = d.autojoin
+            d.autojoin = False
+            d.hold_tasks()
+            try:
+                t.socket.receive(eio_packet.Packet(eio_packet.MESSAGE,
+                                                   f_ev))
+                if how == 'client_disconnect':
+                    t.socket.receive(eio_packet.Packet(eio_packet.MESSAGE,
+                                                       f_dc))
+                else:
+                    t.socket.close(wait=False, abort=True,
+                                   reason=d.eio.reason.TRANSPORT_CLOSE)
+            finally:
+                d.release_tasks()
+                d.autojoin = old
+                d.join()
+            d._reap(t)
+        t.drain()
+        w = {'part': 'last_event_then_leave', 'case_index': k, 'kind': kind,
+             'namespace': ns, 'id': pid, 'how': how,
+             'log': [list(x) for x in log], 'errors': d.errors()}
+        ctx.count('last_events_before_leaving')
+        evs = [x for x in log if x[0] == 'event']
+        if d.errors():
+            ctx.violation(None, 'event followed at once by the client\'s '
+                          'departure: exception escaped (%s)' %
+                          d.errors()[0]['exc'], w)
+        elif evs != [('event', sid, 1)]:
+            ctx.violation(None, 'an event sent on a connected namespace, '
+                          'followed at once by the client\'s %s, invoked its '
+                          'handler %d times' % (how.replace('_', ' '),
+                                                len(evs)), w)
+        elif len([x for x in log if x[0] == 'disconnect']) != 1:
+            ctx.violation(None, 'disconnect handler count is not one', w)
+        else:
+            ctx.case(('last_event_then_leave', kind, ns, pid, how), w)
+    finally:
+        d.close()
+
+
 def run_races(ctx, share):
     """Events racing with a disconnect in progress: asyncio server through
     the interleaving explorer of C04 part (b) (scenarios that contain the
@@ -615,6 +706,7 @@ def run_races(ctx, share):
             race_threaded(ctx, k)
             fault_recovery(ctx, k)
             self_disconnect(ctx, k)
+            last_event_then_leave(ctx, k)
             k += 1
         spec = sp[(k // 8) % len(sp)]
         rng = ctx.case_rng(2 * 10 ** 7 + k)
@@ -642,6 +734,7 @@ def run(ctx):
     ctx.require('racing_events_threaded', 10)
     ctx.require('handler_fault_recoveries', 10)
     ctx.require('self_disconnect_events', 10)
+    ctx.require('last_events_before_leaving', 10)
     ctx.require('racing_events_while_disconnecting', 10)
     run_races(ctx, (ctx.budget or 30) * 0.2)
     k = 0
@@ -652,6 +745,8 @@ def run(ctx):
 
 
 def replay(ctx, w):
+    if w['witness'].get('part') == 'last_event_then_leave':
+        return last_event_then_leave(ctx, w['witness']['case_index'])
     wi = w['witness']
     if wi.get('part') == 'race_threaded':
         return race_threaded(ctx, wi['case_index'])
